@@ -524,7 +524,6 @@ func ruleRev(w *World, r *Report) {
 	}
 }
 
-
 // ---------- C02-TRUTH ----------
 
 func ruleTruth(w *World, r *Report) {
@@ -555,7 +554,7 @@ func ruleTruth(w *World, r *Report) {
 			if !has("(reflect.Value).Float") {
 				missing = append(missing, "number")
 			}
-			if !has("iface:"+sel) {
+			if !has("iface:" + sel) {
 				missing = append(missing, "node-set")
 			}
 			evalFirst := has("iface:" + ev)
